@@ -169,3 +169,27 @@ T('C10', 'mean-copy-then-astype', 'focal.py', "    out = agg.data.astype(float)\
 T('C10', 'hotspots-dict-copy', 'focal.py', "    attrs = copy.deepcopy(raster.attrs)\n    attrs['unit'] = '%'", "    attrs = dict(raster.attrs)\n    attrs['unit'] = '%'")
 T('C10', 'slope-kwargs-reordered', 'slope.py', "    return xr.DataArray(out,\n                        name=name,\n                        coords=agg.coords,\n                        dims=agg.dims,\n                        attrs=agg.attrs)", "    result = xr.DataArray(out, attrs=agg.attrs, dims=agg.dims, coords=agg.coords, name=name)\n    return result")
 T('C10', 'kernel-local-scratch', 'curvature.py', "    out = np.empty(data.shape, np.float32)\n    out[:] = np.nan", "    out = np.empty(data.shape, np.float32)\n    tmp = np.zeros(3)\n    tmp[0] = 1\n    out[:] = np.nan")
+
+# ------------------------------------------------------------------------------------------------ C01
+M('C01', 'slope-depth-short', 'slope.py', "depth=(1, 1),", "depth=(0, 1),", 'H1')
+M('C01', 'conv-depth-swapped', 'convolution.py', "depth=(pad_h, pad_w),", "depth=(pad_w, pad_h),", 'H1')
+M('C01', 'apply-depth-same-axis', 'focal.py', "    pad_h = kernel.shape[0] // 2\n    pad_w = kernel.shape[1] // 2\n\n    out = data.map_overlap(_func,", "    pad_h = kernel.shape[0] // 2\n    pad_w = kernel.shape[0] // 2\n\n    out = data.map_overlap(_func,", 'H1')
+M('C01', 'apply-depth-minus-1', 'focal.py', "    pad_h = kernel.shape[0] // 2\n    pad_w = kernel.shape[1] // 2\n\n    out = data.map_overlap(_func,", "    pad_h = kernel.shape[0] // 2 - 1\n    pad_w = kernel.shape[1] // 2\n\n    out = data.map_overlap(_func,", 'H1')
+M('C01', 'curv-boundary-reflect', 'curvature.py', "boundary=np.nan,", "boundary='reflect',", 'H2')
+M('C01', 'mean-boundary-0', 'focal.py', "    out = data.map_overlap(_func,\n                           depth=(1, 1),\n                           boundary=np.nan,", "    out = data.map_overlap(_func,\n                           depth=(1, 1),\n                           boundary=0,", 'H2')
+M('C01', 'aspect-boundary-missing', 'aspect.py', "                           depth=(1, 1),\n                           boundary=np.nan,\n", "                           depth=(1, 1),\n", 'H2')
+M('C01', 'normalize-minmax-in-block', 'multispectral.py', "    range_val = max_val - min_val\n    rows, cols = data.shape", "    min_val = np.nanmin(data)\n    max_val = np.nanmax(data)\n    range_val = max_val - min_val\n    rows, cols = data.shape", 'H3')
+M('C01', 'hotspots-compute', 'focal.py', "    global_mean = da.nanmean(data)\n    global_std = da.nanstd(data)\n", "    global_mean = da.nanmean(data).compute()\n    global_std = da.nanstd(data)\n", 'H4')
+M('C01', 'hotspots-if-lazy', 'focal.py', "    z_array = (mean_array - global_mean) / global_std\n\n    _func = partial(_calc_hotspots_numpy)", "    if global_std == 0:\n        raise ZeroDivisionError('std is 0')\n    z_array = (mean_array - global_mean) / global_std\n\n    _func = partial(_calc_hotspots_numpy)", 'H4')
+M('C01', 'terrain-dask-octaves', 'terrain.py', "    NOISE_LAYERS = ((1 / 2 ** i, (2 ** i, 2 ** i)) for i in range(16))", "    NOISE_LAYERS = ((1 / 2 ** i, (2 ** i, 2 ** i)) for i in range(15))", 'H0-const')
+M('C01', 'terrain-dask-threshold', 'terrain.py', "    data = (data - np.min(data)) / np.ptp(data)\n    data[data < 0.3] = 0  # create water\n    data *= zfactor\n\n    return data\n\n\ndef _terrain_gpu", "    data = (data - np.min(data)) / np.ptp(data)\n    data[data < 0.35] = 0  # create water\n    data *= zfactor\n\n    return data\n\n\ndef _terrain_gpu", 'H0-const')
+M('C01', 'binary-dask-other-kernel', 'classify.py', "    _func = partial(_run_numpy_binary, values=values)\n    out = data.map_blocks(_func)", "    _func = partial(_run_numpy_bin, bins=values, new_values=values)\n    out = data.map_blocks(_func)", 'H0')
+M('C01', 'equal-interval-lazy-arange', 'classify.py', "        cuts = (min_data + width) + da.arange(k) * width", "        cuts = da.arange(min_data + width, max_data + width, width)", 'H4')
+M('C01', 'terrain-numpy-template-dtype', 'terrain.py', "    data = (data * 0).astype(np.result_type(data.dtype, np.float32))", "    data = data * 0", 'H6')
+M('C01', 'hillshade-overlap-to-blocks', 'hillshade.py', "    out = data.map_overlap(_func,\n                           depth=(1, 1),\n                           boundary=np.nan,\n                           meta=np.array(()))", "    out = data.map_blocks(_func, meta=np.array(()))")
+M('C01', 'mean-kernel-5x5-halo-1', 'focal.py', "                left = max(x-1, 0)\n                right = min(x+2, cols)", "                left = max(x-2, 0)\n                right = min(x+3, cols)", 'H1')
+T('C01', 'conv-depth-inline', 'convolution.py', "depth=(pad_h, pad_w),", "depth=(kernel.shape[0] // 2, kernel.shape[1] // 2),")
+T('C01', 'slope-depth-bigger', 'slope.py', "depth=(1, 1),", "depth=(2, 2),")
+T('C01', 'slope-boundary-none', 'slope.py', "boundary=np.nan,\n                           meta", "boundary='none',\n                           meta")
+T('C01', 'apply-int-half', 'focal.py', "    pad_h = kernel.shape[0] // 2\n    pad_w = kernel.shape[1] // 2\n\n    out = data.map_overlap(_func,", "    pad_h = int(kernel.shape[0] / 2)\n    pad_w = int(kernel.shape[1] / 2)\n\n    out = data.map_overlap(_func,")
+T('C01', 'terrain-pow-const', 'terrain.py', "    nrange = np.arange(2 ** 20, dtype=np.int32)", "    nrange = np.arange(1048576, dtype=np.int32)")
